@@ -76,6 +76,9 @@ func validateIssueTokenBaseFee(i interface{}) error {
 	if !ok {
 		return fmt.Errorf("invalid parameter type: %T", i)
 	}
+	if err := v.Validate(); err != nil {
+		return fmt.Errorf("invalid base fee for issuing token: %w", err)
+	}
 	if v.IsNegative() {
 		return fmt.Errorf("base fee for issuing token should not be negative")
 	}
